@@ -423,10 +423,15 @@ class Connection(ExportImport):
         # confused.
         self._abort()
 
+        # New objects that a failed savepoint has already written must be
+        # disowned before the savepoint storage is discarded: that
+        # invalidates everything it holds, and the state of a new object
+        # cannot be loaded from anywhere.
+        self._invalidate_creating()
+
         if self._savepoint_storage is not None:
             self._abort_savepoint()
 
-        self._invalidate_creating()
         self._tpc_cleanup()
 
     def _abort(self):
